@@ -44,7 +44,8 @@ def reject_case(draw):
     return dict(shape=shape, grow=grow, wkind=wkind, lims=lims, lower=lower, upper=upper, maxdev=maxdev, dev=dev, frac=frac,
                 inmask=None if inmask is None else [draw(st.integers(0, 5)) != 0 for _ in range(n)],
                 prev=None if prev is None else [draw(st.integers(0, 5)) != 0 for _ in range(n)],
-                sticky=draw(st.booleans()), zero_w=[draw(st.integers(0, 7)) == 0 for _ in range(n)], seed=draw(st.integers(0, 999)))
+                sticky=draw(st.booleans()), zero_w=[draw(st.integers(0, 7)) == 0 for _ in range(n)], seed=draw(st.integers(0, 999)),
+                quantised=draw(st.booleans()))
 
 
 def dilate(mask, k):
@@ -110,6 +111,15 @@ def reject_body(case):
     for i in range(n):
         if weightless[i]:
             bad[i] = 'maxdev' in lims and abs(diff[i]) > maxdev
+    if case.get('quantised') and lims == ['maxdev'] and maxdev >= 1.0:
+        # quantised data (counts, a 1/8 grid): residuals land exactly on the absolute limit, which they do not exceed
+        model = np.round(model * 8) / 8
+        for i in range(n):
+            d = case['dev'][i]
+            sgn = -1.0 if 'lo' in d else 1.0
+            diff[i] = {'in': 0.5 * maxdev, 'hi': 2.0 * maxdev, 'lo': 2.0 * maxdev}.get(d, maxdev) * sgn       # the edge kinds sit exactly on the limit
+            bad[i] = d in ('hi', 'lo')
+        note_label('residual-exactly-on-maxdev')
     data = (model + diff).reshape(shape)
     model = model.reshape(shape)
     kw = dict(grow=case['grow'], sticky=case['sticky'])
@@ -202,14 +212,18 @@ def interp_case(draw):
     mk = draw(st.sampled_from(['runs', 'random', 'ends', 'all', 'none', 'one-good']))
     mask = [draw(st.integers(0, 2)) == 0 for _ in range(n)]
     return dict(shape=shape, axis=axis, mk=mk, mask=mask, vals=[10 * draw(uf) for _ in range(n)], xval=draw(st.sampled_from([None, 'unsorted', 'descending', 'ascending'])),
-                xs=[draw(uf) for _ in range(n)], const=draw(st.booleans()), mask_dtype=draw(st.sampled_from(['bool', 'i4'])))
+                xs=[draw(uf) for _ in range(n)], const=draw(st.booleans()), mask_dtype=draw(st.sampled_from(['bool', 'i4'])),
+                ydtype=draw(st.sampled_from(['f8', 'f8', 'f4', 'i4', 'i2'])))
 
 
 def interp_body(case):
     from pydl.pydlutils.image import djs_maskinterp
     shape = tuple(case['shape'])
     ndim = len(shape)
-    y = np.array(case['vals'], dtype='f8').reshape(shape)
+    ydt = case.get('ydtype', 'f8')
+    # counts (integer images) and single-precision spectra too; the reference works on the same values in double precision
+    yin = np.round(np.array(case['vals']) * 3).astype(ydt).reshape(shape) if ydt[0] == 'i' else np.array(case['vals'], dtype=ydt).reshape(shape)
+    y = yin.astype('f8')
     m = np.array(case['mask'], dtype=bool).reshape(shape)
     npax = ndim - 1 - case['axis']          # IDL axis numbering
     L = shape[npax]
@@ -248,8 +262,8 @@ def interp_body(case):
         kw['axis'] = case['axis']
     if x is not None:
         kw['xval'] = x.copy()
-    keep = y.copy()
-    got = call(djs_maskinterp, y, marg, **kw)
+    keep = yin.copy()
+    got = call(djs_maskinterp, yin, marg, **kw)
     want = y.copy()
     wv, yv, mv = np.moveaxis(want, npax, -1), np.moveaxis(y, npax, -1), np.moveaxis(m, npax, -1)
     xvv = np.moveaxis(x, npax, -1) if x is not None else None
@@ -269,16 +283,16 @@ def interp_body(case):
         um = ~m & ~np.moveaxis(np.broadcast_to((~mv).sum(-1, keepdims=True) == 1, mv.shape), -1, npax)
         check(bool(np.array_equal(got[um], y[um])), 'maskinterp:unmasked-sample-changed', lambda: dict(where=np.argwhere((got != y) & um)[0].tolist()))
         dev = np.abs(got - want)
-        check(bool(np.all(dev <= 1e-12 * max(1.0, np.abs(y).max()))), 'maskinterp:masked-sample-not-linear-interpolation',
+        check(bool(np.all(dev <= (2e-6 if ydt == 'f4' else 1e-12) * max(1.0, np.abs(y).max()))), 'maskinterp:masked-sample-not-linear-interpolation',
               lambda: dict(where=np.argwhere(dev == dev.max())[0].tolist(), got=float(got.ravel()[dev.argmax()]), want=float(want.ravel()[dev.argmax()]),
                            axis=case['axis'], xval=case['xval'], const=case['const'], shape=case['shape']))
-        check(np.array_equal(y, keep), 'maskinterp:input-modified')
+        check(np.array_equal(yin, keep), 'maskinterp:input-modified')
     if mv[..., 0].any() or mv[..., -1].any():
         note_label('masked-run-touches-end')
 
 
 def interp_classify(case):
-    return ['ndim:%d' % len(case['shape']), 'axis:%d' % case['axis'], 'mask:' + case['mk'], 'xval:%s' % case['xval'], 'const' if case['const'] else 'noconst']
+    return ['ndim:%d' % len(case['shape']), 'axis:%d' % case['axis'], 'mask:' + case['mk'], 'xval:%s' % case['xval'], 'const' if case['const'] else 'noconst', 'ydtype:' + case.get('ydtype', 'f8')]
 
 
 # ------------------------------------------------------------------ aesthetics
